@@ -228,7 +228,7 @@ def build_harness(release=False):
 def build_driver():
     with BuildLock("ocaml"):
         drv = os.path.join(OCAML, "_build", "driver")
-        srcs = [os.path.join(COQ, "extracted", "model.ml"), os.path.join(OCAML, "driver.ml"), os.path.join(OCAML, "conv.ml")]
+        srcs = [os.path.join(COQ, "extracted", "model.ml"), os.path.join(OCAML, "driver.ml"), os.path.join(OCAML, "conv.ml"), os.path.join(OCAML, "validate.ml")]
         if os.path.exists(drv) and all(os.path.getmtime(s) <= os.path.getmtime(drv) for s in srcs):
             return drv
         rc, out, err = sh(["sh", os.path.join(OCAML, "build.sh")], timeout=900)
